@@ -178,6 +178,10 @@ def st(fields=None, ops=None, opfields=None):
     opfields = opfields or {}
 
     def rel(d):
+        if d["mod"] == "panic":
+            # a panicking Begin/EndBlock ends the history: for a property that constrains block
+            # transitions the correspondence (the model predicts no panic) no longer checks
+            return "block" in ops or "block" in opfields
         if d["mod"] != "storage":
             return False
         fs = set(d["fields"])
@@ -209,9 +213,9 @@ STORAGE_PROPS = {
     "C14": dict(main="forms", monitor=mon_storage.c14,
                 rel=st(fields=["attests", "reports"], ops=["attest", "report", "requestAttest", "requestReport"])),
     "C15": dict(main="collateral", monitor=mon_storage.c15,
-                rel=st(fields=["collateral"], ops=["initProvider", "shutdownProvider"])),
+                rel=st(fields=["collateral", "params"], ops=["initProvider", "shutdownProvider", "setParams"])),
     "C17": dict(main="storage", monitor=mon_storage.c17,
-                rel=st(fields=["files", "files2", "proofs", "keyshape"])),
+                rel=st(fields=["files", "files2", "proofs", "keyshape"], opfields={"block": ["files", "files2", "proofs"]})),
 }
 
 for _pid, _c in STORAGE_PROPS.items():
